@@ -388,6 +388,10 @@ class HttpParser(abc.ABC, Generic[_MsgT]):
                     if SEP == b"\n":  # For lax response parsing
                         line = line.rstrip(b"\r")
                     if len(line) > max_line_length:
+                        if 0 <= line.find(b"\n") <= max_line_length:
+                            # A bare LF within the limit comes first, as it does
+                            # when a read ends inside this line.
+                            raise BadHttpMessage("Bad line ending, expected CRLF")
                         raise LineTooLong(line[:100] + b"...", max_line_length)
 
                     self._lines.append(line)
@@ -540,7 +544,7 @@ class HttpParser(abc.ABC, Generic[_MsgT]):
                     # A bare LF here means CRLF was required:
                     # reject instead of buffering, else a following request's
                     # bytes get appended to this line and leak in the error.
-                    if b"\n" in self._tail:
+                    if 0 <= self._tail.find(b"\n") <= max_line_length:
                         raise BadHttpMessage("Bad line ending, expected CRLF")
                     # A trailing CR may be the first half of the line ending.
                     if len(self._tail) - self._tail.endswith(b"\r") > max_line_length:
